@@ -8,8 +8,15 @@ import refasm
 from common import assemble, main_protocol
 
 
+# a condition that mentions an undefined name is false as a whole, whatever the rest of it would evaluate to
+UNDEFINED_COMPOUND = ["UNDEFINED_NAME + 1", "1 - UNDEFINED_NAME", "ONE + UNDEFINED_NAME", "1 << UNDEFINED_NAME"]  # (`|` is not part of the expression syntax outside instruction operands)
+
+
 def body(rng, depth, var, labels):
     out = []
+    if var and rng.random() < 0.35:
+        # an assignment in a loop body belongs to the iteration (assigned once per scope: emission reads the scope's final value)
+        out += [("const", "x", var), ("db", ["x"])]
     for _ in range(rng.randint(1, 4)):
         r = rng.random()
         if r < 0.3:
@@ -24,7 +31,7 @@ def body(rng, depth, var, labels):
                 if rng.random() < 0.7:
                     out.append(("abs", "jmp", name, "w"))
         elif r < 0.7 and depth < 3:
-            cond = rng.choice([var, "ZERO", "ONE", "NEG", "UNDEFINED_NAME", 0, 1, 2]) if var else rng.choice(["ZERO", "ONE", "NEG", "UNDEFINED_NAME", 0, 3])
+            cond = rng.choice([var, "ZERO", "ONE", "NEG", "UNDEFINED_NAME", 0, 1, 2, var + " + UNDEFINED_NAME"]) if var else rng.choice(["ZERO", "ONE", "NEG", "UNDEFINED_NAME", 0, 3] + UNDEFINED_COMPOUND)
             out.append(("if", cond, body(rng, depth + 1, var, labels), body(rng, depth + 1, var, labels) if rng.random() < 0.6 else None))
         elif r < 0.9 and depth < 2:
             v2 = "j" if var == "i" else "i"
@@ -38,13 +45,14 @@ def body(rng, depth, var, labels):
 
 def gen(rng):
     labels = {"n": 0}
-    prog = [("star", rng.choice([0x008000, 0x00FFF0, 0x018000])), ("const", "ZERO", 0), ("const", "ONE", 1), ("const", "NEG", -5)]
+    prog = [("star", rng.choice([0x008000, 0x00FFF0, 0x018000])), ("const", "ZERO", 0), ("const", "ONE", 1), ("const", "NEG", -5), ("const", "x", 0x55)]
     if rng.random() < 0.5:
         prog.append(("macro", "rep", ["n", "val"], [("for", "k", 0, "n", [("db", ["val", "k"])]), ("if", "n", [("op", "nop")], [("op", "clc")])]))
     prog += body(rng, 0, None, labels)
     if any(s[0] == "macro" for s in prog):
         prog.append(("apply", "rep", [rng.choice([0, 1, 3]), rng.randrange(256)]))
         prog.append(("for", "i", 0, 3, [("apply", "rep", ["i", 7])]))
+    prog.append(("db", ["x"]))  # the outer name is neither overwritten by, nor visible from, the iterations' own assignments
     return prog
 
 
